@@ -507,7 +507,7 @@ func (g *G) pinAttr(bp *BodyPlan, name string, kind, want int, as *schema.Attrib
 		want = 5 + g.pick(3) // a value no key uses
 	}
 	txt, ev := DepVal(kind, want)
-	e := raw(txt)
+	e := ref(txt)
 	if kind <= 2 {
 		e = lit(ev.Static)
 	}
